@@ -290,9 +290,11 @@ func (h *history) filter(parent int, class string, o lint.FilterOptions) int {
 	if err != nil {
 		return -1
 	}
-	if r == h.regs[parent].reg {
-		return parent
+	if r == h.regs[parent].reg && o.Empty() {
+		return parent // documented: no options, the registry itself
 	}
+	// with options the result is a registry of its own (Registry.tla): it is tracked as one even if the code hands back the
+	// parent, so that configuration set on it later must not show in the parent
 	h.regs = append(h.regs, &hreg{reg: r, cfg: h.regs[parent].cfg, class: class})
 	return len(h.regs) - 1
 }
